@@ -420,7 +420,7 @@ def worker(c):
 
 def cases(ctx):
     rng = ctx.rng
-    n = ctx.pick(200, 2400)
+    n = ctx.pick(200, 1200)
     cs = []
     for i in range(n):
         kind = ["pile", "contact", "rich", "pile"][i % 4]
@@ -463,9 +463,9 @@ def run(ctx):
             ctx.inconclusive("%s did not converge in %d of %d runs" % (s, sk, tot))
     if cn.get("skipped_reference_starts_disagree", 0) > 0.05 * max(1, cn.get("scenes", 0)):
         ctx.inconclusive("reference optimiser starts disagree too often (%d)" % cn.get("skipped_reference_starts_disagree", 0))
-    if cn.get("island_vs_monolithic_pairs", 0) < ctx.pick(20, 300) and not ctx.violations:
+    if cn.get("island_vs_monolithic_pairs", 0) < ctx.pick(20, 200) and not ctx.violations:
         ctx.inconclusive("too few island/monolithic pairs")
-    ctx.min_nontrivial = ctx.pick(1500, 30000)
+    ctx.min_nontrivial = ctx.pick(1500, 12000)
 
 
 def replay(ctx, path):
